@@ -381,7 +381,8 @@ def rich_alphabet(n, env, subs=("bs2", "h3mid", "h3io", "h4desc", "lossy", "grp"
           ("sw", ((0, n - 1), (n - 1, 0))), ("sw", ((0, 1), (1, 2), (2, 0))), ("sw", ((1, 2), (2, 1))),
           ("uni", 2, 1, False), ("uni", 3, 0, True), ("bar", None), ("bar", (1,)),
           ("her", 1, 1, n - 1), ("her", 0, 0, 0), ("her", 2, n - 1, 1),
-          ("bsP", 0, 2), ("psP", 1, True), ("psP", 0, False), ("lossP", n - 1), ("bslossP", 1, 0)]
+          ("bsP", 0, 2), ("psP", 1, True), ("psP", 0, False), ("lossP", n - 1), ("bslossP", 1, 0),
+          ("addgP", 0), ("addgP", n - 2)]
     return o
 
 
@@ -409,6 +410,10 @@ def construct(n, prog, env):
             elif k == "lossP":
                 p = lw.Parameter(env.L2, bounds=[0, 1], label="l%d" % len(params)); params.append(p)
                 c.loss(op[1], p)
+            elif k == "addgP":        # a grouped sub-circuit that holds a Parameter
+                p = lw.Parameter(env.R[1], label="g%d" % len(params)); params.append(p)
+                sp = lw.Circuit(2); sp.bs(0, reflectivity=p); sp.ps(1, env.PH[0])
+                c.add(sp, op[1], group=True)
             elif k == "bslossP":
                 p = lw.Parameter(env.L[1]); params.append(p)
                 c.bs(op[1], op[2], loss=p)
